@@ -308,3 +308,251 @@ def replay(prop, d):
 
 
 REGISTRY = {"C08": check_c08}
+
+
+# ------------------------------------------------------------------------------------------------ C15
+ENDPOINT_URL = "http://127.0.0.1:9/sparql"
+_EP = {"graph": None, "log": []}
+
+
+class _FakeResult(object):
+    def __init__(self, data):
+        self._data = data
+
+    def convert(self):
+        return self._data
+
+
+def install_fake_endpoint(T):
+    """substitutes the HTTP client (third-party boundary): SPARQLWrapper.query evaluates the query text on an rdflib graph"""
+    import SPARQLWrapper
+    _EP["graph"] = M.to_rdflib(T)
+    _EP["log"] = []
+
+    def query(self):
+        q = self.queryString
+        _EP["log"].append(q)
+        res = _EP["graph"].query(q)
+        return _FakeResult(json.loads(res.serialize(format="json")))
+    SPARQLWrapper.SPARQLWrapper.query = query
+
+
+def _run_endpoint(payload):
+    """payload: {id, case, cached: bool} -> run result + number of queries"""
+    from shexer.shaper import Shaper
+    case = payload["case"]
+    T = M.from_json_graph(case["graph"])
+    install_fake_endpoint(T)
+    kw = runner.shaper_kwargs(case, graph_kwargs={"url_endpoint": ENDPOINT_URL})
+    kw.pop("input_format", None)
+    kw["disable_endpoint_cache"] = not payload["cached"]
+    if payload.get("limit"):
+        kw["limit_remote_instances"] = payload["limit"]
+    res = {"id": payload["id"], "status": "ok", "exc": "", "frame": "", "phase": "", "queries": 0}
+    st, sh, exc, frame = runner.call_guarded(lambda: Shaper(**kw), timeout=20)
+    if st != "ok":
+        res.update(status=st, exc=exc, frame=frame, phase="ctor")
+        return res
+    thr = case["cfg"]["thr"][0] / case["cfg"]["thr"][1]
+    st, text, exc, frame = runner.call_guarded(lambda: sh.shex_graph(string_output=True, acceptance_threshold=thr), timeout=40)
+    res["queries"] = len(_EP["log"])
+    if st != "ok":
+        res.update(status=st, exc=exc, frame=frame, phase="shex_graph")
+        return res
+    res["schema"] = runner.observe_schema(text, case)
+    res["text_sha"] = hashlib.sha256(text.encode("utf8")).hexdigest()
+    return res
+
+
+def endpoint_graph(rnd):
+    """IRI nodes, plain-string and integer literals (what the endpoint result reader keeps)"""
+    T = [t for t in gen.general_graph(rnd, bnodes=False, rich_literals=False, max_nodes=6)]
+    return T
+
+
+def check_c15(out, tier):
+    rnd = random.Random(common.seed() + 15)
+    mine = lambda c: c.startswith("C15.")
+    r = tlc.check_model("EndpointCache", "MC_C15.cfg", workers=8, timeout=900)
+    out.add_l1("EndpointCache/MC_C15.cfg", r)
+    for inv in r["violated"]:
+        out.violation("L1.%s" % inv, {"model": "EndpointCache"}, r["out"][-1500:])
+    k = pipeline.SIZES[tier]
+    payloads, groups = [], []
+    for i in range(90 * k):
+        T = endpoint_graph(rnd)
+        cfg = gen.switches(rnd)
+        cfg["report"] = "mixed"
+        classes = gen.classes_of(T)
+        r_ = rnd.random()
+        if r_ < .4 or not classes:
+            cfg["mode"] = "all"
+        elif r_ < .75:
+            cfg["mode"] = "classes"
+            cfg["targets"] = rnd.sample(classes, rnd.randint(1, len(classes)))
+        else:
+            cfg["mode"] = "shapemap"
+            cfg["items"] = pipeline.shape_map_items(rnd, T, classes)
+            cfg["nsDict"] = gen.NSDICT
+        base = gen.case("c15g%d" % i, T, **cfg)
+        payloads.append({"id": base["id"] + ".local", "case": base, "kind": "local"})
+        payloads.append({"id": base["id"] + ".cached", "case": base, "kind": "ep", "cached": True})
+        payloads.append({"id": base["id"] + ".uncached", "case": base, "kind": "ep", "cached": False})
+        groups.append(base)
+    results = runner.run_many(_run_c15, payloads, chunk=6)
+    by = {}
+    for p, r_ in zip(payloads, results):
+        if r_.get("status") == "harness-error":
+            raise common.Machinery("harness error: %s\n%s" % (r_.get("exc"), r_.get("trace", "")))
+        by[p["id"]] = r_
+    traces = []
+    for base in groups:
+        loc, ca, un = by[base["id"] + ".local"], by[base["id"] + ".cached"], by[base["id"] + ".uncached"]
+        if loc["status"] != "ok":
+            out.skip("local run crashed (judged by C04)")
+            continue
+        for kind, r_ in (("cached", ca), ("uncached", un)):
+            if r_["status"] != "ok":
+                out.violation("C15.endpoint.%s:%s@%s" % (r_["status"], r_["exc"], r_["frame"]), {"case": base, "kind": kind}, "endpoint run failed where the local run succeeds")
+        if ca["status"] != "ok" or un["status"] != "ok":
+            continue
+        a = relations.run_block(base, loc)
+        traces.append({"id": base["id"] + ".eq", "rel": "same", "how": "endpoint", "prop": "C15", "a": a, "b": relations.run_block(base, ca), "c": a})
+        traces.append({"id": base["id"] + ".cache", "rel": "same", "how": "cache", "prop": "C15", "a": relations.run_block(base, un), "b": relations.run_block(base, ca), "c": a})
+        if ca["queries"] > un["queries"]:
+            out.violation("C15.morequeries", {"case": base}, "cached run sent %d queries, uncached %d" % (ca["queries"], un["queries"]))
+        if ca["queries"] == 0:
+            out.violation("C15.noqueries", {"case": base}, "the endpoint run sent no query at all: the substitute endpoint was bypassed")
+        out.sample({"case": base["id"], "mode": base["cfg"]["mode"], "queries_cached": ca["queries"], "queries_uncached": un["queries"]})
+    verdicts, stats = tlc.validate_batch("Trace_Campaign", "Trace_Campaign.cfg", traces, procs=10)
+    out.traces += len(payloads)
+    out.evaluations += len(traces)
+    out.notes["monitor_states"] = stats["states"]
+    byid = {g["id"]: g for g in groups}
+    for t in traces:
+        v = verdicts[t["id"]]
+        out.nontrivial.add(t["id"])
+        if any(c.startswith("MACHINERY") for c in v["clauses"]):
+            raise common.Machinery("C15 %s: %s" % (t["id"], v["clauses"]))
+        if "SKIP.crashed" in v["clauses"]:
+            continue
+        out.judge_clauses(v["clauses"], {"case": byid[t["id"].rsplit(".", 1)[0]], "rel": t["how"]}, mine, detail=t["how"])
+    return ("graphs with IRI nodes and plain-string / integer literals x {all classes, target classes, shape map} x inference switches x inverse "
+            "paths: the extraction against an in-process SPARQL evaluator substituted for the HTTP client (cache on and off) is compared with "
+            "the local extraction by Trace_Campaign (same schema outside tie groups); the query log gives queries(cached) <= queries(uncached)")
+
+
+def _run_c15(payload):
+    if payload["kind"] == "local":
+        r = runner.run_case(payload["case"])
+        r["queries"] = 0
+        return r
+    return _run_endpoint(payload)
+
+
+REGISTRY["C15"] = check_c15
+
+
+# ------------------------------------------------------------------------------------------------ C19
+_SEED_RUNNER = r'''
+import sys, json, hashlib, os
+sys.path.insert(0, %(root)r)
+os.environ["SHEXER_VERIF"] = "1"
+from harness import runner, channels, rdfmodel as M
+cases = json.load(open(sys.argv[1]))
+out = []
+for c in cases:
+    if c.get("endpoint"):
+        r = channels._run_endpoint({"id": c["id"], "case": c, "cached": True})
+        text_sha = r.get("text_sha", "")
+    else:
+        r = runner.run_case(c, want_text=True)
+        t = r.get("text")
+        if t is not None and c["cfg"]["format"] == "shacl":
+            import rdflib
+            from rdflib.compare import to_isomorphic
+            g = rdflib.Graph(); g.parse(data=t, format="turtle")
+            text_sha = "iso:" + str(to_isomorphic(g).internal_hash())
+        else:
+            text_sha = hashlib.sha256(t.encode("utf8")).hexdigest() if t is not None else ""
+    out.append({"id": c["id"], "status": r["status"], "exc": r.get("exc", ""), "sha": text_sha})
+json.dump(out, open(sys.argv[2], "w"))
+'''
+
+
+def check_c19(out, tier):
+    rnd = random.Random(common.seed() + 19)
+    r = tlc.check_model("MC_Shexer", "MC_C19_%s.cfg" % tier, workers=8, timeout=1500)
+    out.add_l1("MC_Shexer/MC_C19_%s.cfg" % tier, r)
+    for inv in r["violated"]:
+        out.violation("L1.%s" % inv, {"model": "MC_Shexer"}, r["out"][-1500:])
+    k = pipeline.SIZES[tier]
+    cases = []
+    for i in range(36 * k):
+        shapemap = rnd.random() < .3
+        T = gen.general_graph(rnd, bnodes=not shapemap and rnd.random() < .5, max_nodes=6)
+        cfg = gen.switches(rnd, ors=True)
+        pipeline.target_variants(rnd, T, cfg, shapemap)
+        cfg["format"] = rnd.choice(["shexc", "shexc", "shacl"])
+        if cfg["format"] == "shacl":
+            cfg["disableOr"], cfg["redundantOr"] = True, False
+        cfg["examples"] = rnd.choice(["", "", "all"]) if cfg["format"] == "shexc" else ""
+        cfg["minIri"] = rnd.random() < .3
+        cases.append(gen.case("c19g%d" % i, T, **cfg))
+    for i in range(24 * k):
+        T = endpoint_graph(rnd)
+        cfg = gen.switches(rnd)
+        classes = gen.classes_of(T)
+        if classes and rnd.random() < .5:
+            cfg["mode"] = "classes"
+            cfg["targets"] = rnd.sample(classes, rnd.randint(1, len(classes)))
+        elif classes and rnd.random() < .5:
+            cfg["mode"] = "shapemap"
+            cfg["items"] = pipeline.shape_map_items(rnd, T, classes)
+            cfg["nsDict"] = gen.NSDICT
+        c = gen.case("c19e%d" % i, T, **cfg)
+        c["endpoint"] = True
+        cases.append(c)
+    seeds = list(range(6)) if tier == "quick" else list(range(32))
+    work = tempfile.mkdtemp(prefix="shexer-verif-c19-")
+    try:
+        inp = os.path.join(work, "cases.json")
+        with open(inp, "w") as fh:
+            json.dump(cases, fh)
+        script = os.path.join(work, "seedrun.py")
+        with open(script, "w") as fh:
+            fh.write(_SEED_RUNNER % {"root": common.ROOT})
+        procs = []
+        for s in seeds:
+            env = dict(os.environ, PYTHONHASHSEED=str(s), SHEXER_REPO=runner.REPO)
+            outp = os.path.join(work, "out%d.json" % s)
+            procs.append((s, outp, subprocess.Popen(["/venv/bin/python", "-u", script, inp, outp], env=env, stdout=subprocess.PIPE, stderr=subprocess.STDOUT)))
+        per_seed = {}
+        for s, outp, p in procs:
+            log, _ = p.communicate(timeout=1800)
+            if p.returncode != 0 or not os.path.exists(outp):
+                raise common.Machinery("seed run %d failed:\n%s" % (s, log.decode("utf8", "replace")[-1500:]))
+            with open(outp) as fh:
+                per_seed[s] = {r_["id"]: r_ for r_ in json.load(fh)}
+    finally:
+        shutil.rmtree(work, ignore_errors=True)
+    traces = []
+    for c in cases:
+        obs = [{"seed": s, "status": per_seed[s][c["id"]]["status"], "sha": per_seed[s][c["id"]]["sha"]} for s in seeds]
+        traces.append({"id": c["id"], "runs": obs})
+    verdicts, stats = tlc.validate_batch("Trace_Seeds", "Trace_Seeds.cfg", traces, procs=2)
+    out.traces += len(cases) * len(seeds)
+    out.evaluations += len(cases)
+    for c in cases:
+        v = verdicts[c["id"]]
+        out.nontrivial.add(c["id"])
+        shas = sorted({per_seed[s][c["id"]]["sha"] for s in seeds})
+        out.judge_clauses(v["clauses"], {"case": c}, lambda x: x.startswith("C19."), detail="distinct outputs over seeds %s: %d" % (seeds, len(shas)))
+        out.sample({"case": c["id"], "endpoint": bool(c.get("endpoint")), "mode": c["cfg"]["mode"], "distinct_outputs": len(shas), "seeds": len(seeds)})
+    return ("local extractions (all target modes incl. shape maps and SPARQL selectors, OR, examples, min-IRI, ShExC bytes / SHACL up to "
+            "isomorphism) and extractions through the substitute endpoint, each run in a fresh interpreter per PYTHONHASHSEED in 0..%d: all "
+            "outputs of one case must be identical (judged by Trace_Seeds); L1: the model's output is independent of the tie-break salt "
+            "outside tie groups" % (len(seeds) - 1))
+
+
+REGISTRY["C19"] = check_c19
